@@ -14,6 +14,8 @@ import (
 	"verif/lib/proggen"
 )
 
+var raceBuild bool
+
 type genTx struct {
 	tx     *types.Transaction
 	kind   string
@@ -78,6 +80,9 @@ func randBytes(rng *rand.Rand, n int) []byte {
 func (s *txSource) next() genTx {
 	w, rng := s.w, s.rng
 	k := rng.Intn(100)
+	if raceBuild && k >= 76 && k < 83 {
+		k = rng.Intn(73) // blob admission verifies 128 cell proofs per blob: very slow under the race detector
+	}
 	isBlob := k >= 73 && k < 83
 	i := rng.Intn(10)
 	if isBlob {
@@ -114,7 +119,7 @@ func (s *txSource) next() genTx {
 	case k < 35:
 		g.kind = "call-generated"
 		to := w.gen[rng.Intn(len(w.gen))]
-		gas := []uint64{25_000, 60_000, 200_000, 1_000_000, 3_000_000}[rng.Intn(5)]
+		gas := []uint64{25_000, 60_000, 200_000, 1_000_000, blockGasLimit / 10}[rng.Intn(5)]
 		g.tx = s.envelope(i, nonce, &to, randBytes(rng, rng.Intn(100)), gas, val(), under)
 	case k < 47:
 		g.kind = "probe"
@@ -150,7 +155,7 @@ func (s *txSource) next() genTx {
 		g.tx = s.envelope(i, nonce, nil, init, 400_000+uint64(len(init))*300, val(), under)
 	case k < 73:
 		g.kind = "burn-gas"
-		gas := uint64(2_000_000 + rng.Intn(6_000_000))
+		gas := blockGasLimit/15 + uint64(rng.Intn(int(blockGasLimit/5)))
 		g.tx = s.envelope(i, nonce, &w.burner, nil, gas, new(big.Int), under)
 	case k < 83:
 		g.kind = "blob"
